@@ -313,11 +313,15 @@ def ptoLatest (s : St) : Option Chunk :=
   ((scanFrom s.q (pto_scanTSN (a_cumulativeTSNAckPoint := s.cumAck) (i := 0))).filter
     fun c => !pto_skipDead (c_acked := c.acked) (c_abandoned := c.abandoned)).getLast?
 
+/-- `if !a.tlrActive { a.tlrBeginLocked() } else { a.tlrApplyAdditionalLossLocked(currTime) }` of `onPTOTimerLocked` -/
+def ptoTlr (s : St) (env : Env) : St :=
+  if pto_beginsTLR (a_tlrActive := s.tlrActive) then tlrBegin s else tlrApplyAdditionalLoss s env s.now
+
 /-- `onPTOTimerLocked`: new state and the TSNs it marked for retransmission (at most one) -/
 def onPTOTimer (s : St) (env : Env) : St × List (BitVec 32) :=
   if pto_idle (a_inflightQueue_size := (s.q.length : Int)) then ({ stopPTOTimer s with hbProbes := s.hbProbes + 1 }, [])
   else
-    let s1 := if pto_beginsTLR (a_tlrActive := s.tlrActive) then tlrBegin s else tlrApplyAdditionalLoss s env s.now
+    let s1 := ptoTlr s env
     if pto_hasPending (a_pendingQueue_size := env.pendingSize) then (s1, [])      -- "PTO should just wake the writer"
     else match ptoLatest s1 with
       | none => (s1, [])
@@ -390,27 +394,46 @@ def rackDelivered (s : St) (found : Bool) (newestTime : Int) (newestTSN : BitVec
       then { s1 with deliveredTime := newestTime } else s1
   else s
 
+/-- step 2a: `if minRTT := a.rack.rackMinRTTWnd.Min(currTime); minRTT > 0 { a.rackMinRTT = minRTT }` -/
+def reoMinRTT (s : St) : St :=
+  let m := wminMin s.cfg.minRTTWindow s.minWnd s.now
+  { s with minWnd := m.1, minRTT := if rack_minRTTValid (minRTT := m.2) then m.2 else s.minRTT }
+
+/-- `base`: a quarter of the min-RTT or the configured floor, 0 without a min-RTT -/
+def reoBase (s : St) : Int :=
+  if rack_haveMinRTT (a_rackMinRTT := s.minRTT) then rack_reoBase (a_rackMinRTT := s.minRTT) (a_rack_rackReoWndFloor := s.cfg.reoWndFloor) else 0
+
+/-- step 2b: suppress the window during recovery while no reordering was ever seen, else initialise it from `base` -/
+def reoInit (s : St) (env : Env) : St :=
+  if rack_suppressReoWnd (a_rackReorderingSeen := s.reorderingSeen) (a_inFastRecovery := env.inFastRecovery) (a_t3RTX_isRunning := env.t3Running)
+    then { s with reoWnd := 0 }
+  else if rack_initReoWnd (a_rackReoWnd := s.reoWnd) (base := reoBase s) then { s with reoWnd := reoBase s } else s
+
+/-- step 2c: duplicate TSNs reported (DSACK-style): inflate, keep inflated for 16 recoveries -/
+def reoInflate (s : St) (nDups : Int) : St :=
+  if rack_dupInflates (sack_duplicateTSN_len := nDups) (a_rackMinRTT := s.minRTT) then
+    { s with reoWnd := rack_reoInflated (a_rackReoWnd := s.reoWnd) (a_rackMinRTT := s.minRTT) (a_rack_rackReoWndFloor := s.cfg.reoWndFloor),
+             keepInflated := rack_keepInit }
+  else s
+
+/-- step 2d: count down the keep-inflated counter outside fast recovery; at 0 fall back to a quarter of the min-RTT -/
+def reoKeep (s : St) (env : Env) : St :=
+  if rack_keepDecrements (a_inFastRecovery := env.inFastRecovery) (a_rackKeepInflatedRecoveries := s.keepInflated) then
+    let k := s.keepInflated - 1
+    if rack_keepExpired (a_rackKeepInflatedRecoveries := k) (a_rackMinRTT := s.minRTT)
+      then { s with keepInflated := k, reoWnd := rack_reoAfterKeep (a_rackMinRTT := s.minRTT) }
+      else { s with keepInflated := k }
+  else s
+
+/-- step 2e: "the reordering window MUST be bounded by SRTT" -/
+def reoClamp (s : St) (env : Env) : St :=
+  if env.srtt.rackValid then
+    (if rack_reoAboveSrtt (a_rackReoWnd := s.reoWnd) (srttDur := env.srtt.rackDur) then { s with reoWnd := env.srtt.rackDur } else s)
+  else s
+
 /-- step 2: min-RTT and the reordering window -/
 def rackReoWnd (s : St) (env : Env) (nDups : Int) : St :=
-  let m := wminMin s.cfg.minRTTWindow s.minWnd s.now
-  let s2 := { s with minWnd := m.1, minRTT := if rack_minRTTValid (minRTT := m.2) then m.2 else s.minRTT }
-  let base := if rack_haveMinRTT (a_rackMinRTT := s2.minRTT) then rack_reoBase (a_rackMinRTT := s2.minRTT) (a_rack_rackReoWndFloor := s2.cfg.reoWndFloor) else 0
-  let s3 := if rack_suppressReoWnd (a_rackReorderingSeen := s2.reorderingSeen) (a_inFastRecovery := env.inFastRecovery) (a_t3RTX_isRunning := env.t3Running)
-    then { s2 with reoWnd := 0 }
-    else if rack_initReoWnd (a_rackReoWnd := s2.reoWnd) (base := base) then { s2 with reoWnd := base } else s2
-  let s4 := if rack_dupInflates (sack_duplicateTSN_len := nDups) (a_rackMinRTT := s3.minRTT) then
-      { s3 with reoWnd := rack_reoInflated (a_rackReoWnd := s3.reoWnd) (a_rackMinRTT := s3.minRTT) (a_rack_rackReoWndFloor := s3.cfg.reoWndFloor),
-                keepInflated := rack_keepInit }
-    else s3
-  let s5 := if rack_keepDecrements (a_inFastRecovery := env.inFastRecovery) (a_rackKeepInflatedRecoveries := s4.keepInflated) then
-      let k := s4.keepInflated - 1
-      if rack_keepExpired (a_rackKeepInflatedRecoveries := k) (a_rackMinRTT := s4.minRTT)
-        then { s4 with keepInflated := k, reoWnd := rack_reoAfterKeep (a_rackMinRTT := s4.minRTT) }
-        else { s4 with keepInflated := k }
-    else s4
-  if env.srtt.rackValid then
-    (if rack_reoAboveSrtt (a_rackReoWnd := s5.reoWnd) (srttDur := env.srtt.rackDur) then { s5 with reoWnd := env.srtt.rackDur } else s5)
-  else s5
+  reoClamp (reoKeep (reoInflate (reoInit (reoMinRTT s) env) nDups) env) env
 
 /-- step 3: loss marking -/
 def rackMark (s : St) (env : Env) : St × List (BitVec 32) :=
